@@ -1,7 +1,7 @@
 /-
 Soundness and completeness of `iterate` with respect to `followPath`.
 -/
-import FiddleModel.Model.Graph
+import FiddleModel.Model.Select
 
 namespace Fiddle
 
@@ -385,9 +385,6 @@ theorem pairs_paths_nodup (h : Heap) (hd : h.PathsDistinct) (fuel : Nat) :
         | some o => exact flatMap_paths_nodup h fuel path ih o.children (hd i o ho)
 
 /-! ## Memoized traversal: each mutable object is yielded at most once -/
-
-def refIds (out : List (GVal × Path)) : List Nat :=
-  out.filterMap (fun vp => match vp.1 with | .ref i => some i | .atom _ => none)
 
 structure IterSt.Once (st : IterSt) : Prop where
   nodup : (refIds st.out).Nodup
